@@ -110,7 +110,7 @@ Consume ==
 Conclude ==
   /\ Mode = "trace" /\ tst = "ok" /\ l = Len(Traces[tid].events) + 1
   /\ l' = l + 1
-  /\ tst' = IF Traces[tid].live # Traces[tid].fresh THEN "output-depends-on-history"
+  /\ tst' = IF \E i \in 1..Len(Traces[tid].pairs) : Traces[tid].pairs[i].live # Traces[tid].pairs[i].fresh THEN "output-depends-on-history"
             ELSE IF Traces[tid].mutated THEN "argument-altered" ELSE "ok"
   /\ UNCHANGED <<tid, tcache, inc>>
 TNext == (Consume \/ Conclude) /\ UNCHANGED dvars
